@@ -51,10 +51,10 @@ PROPS = {
         ],
     },
     "C20": {
-        "modules": ["SamlModel.Props.C20"],
+        "modules": ["SamlModel.Props.C20", "SamlModel.Props.CheckerGen"],
         "translated": [],
         "trusted_base": COMMON_TRUST + [
-            "Model.Checker is a hand translation of checker.go: tied by normalised-source fingerprints (theorem C20_source_current, regenerated facts) and by the exhaustive chk correspondence",
+            "Model.Checker is a hand translation of checker.go. Tie 1 (proof): checker.go is translated on every run by go2lean's checkergen (the methods of Checker, polymorphic in the client state: a closure parameter is a state transformer, a call threads the state, `for … range` with early return is Go.forM) into Generated/Checker.lean, and Props.CheckerGen proves every generated function equal to the function of Model.Checker the theorems are stated over (checkFailed_eq by induction over the step list, withXxx_eq; register_is_generated / runChain_is_generated: the chains of the translated handlers are registered and run by the regenerated checker.go). Tie 2: the exhaustive chk correspondence (every program up to the bound, instrumented closures)",
             "closure invocations are observed through instrumented closures; reads of closures are part of the compared trace",
         ],
         "assumptions": [
